@@ -21,6 +21,7 @@ verus! {
 //@use version.rs
 //@use offsets.rs
 broadcast use shim_core::lemma_skip_skip;
+global size_of usize == 8;
 '''
 
 PART_0 = r'''
@@ -42,6 +43,13 @@ pub mod game {
 //@struct src/game/mod.rs End | keep=bytes
 //@struct src/game/mod.rs GeckoCodes
 //@struct src/game/mod.rs Quirks
+	impl End {
+		// Game End payload size prescribed for the version: 1 (< 2.0), 2 (>= 2.0), 6 (>= 3.13)
+		pub open spec fn size_spec(v: Version) -> int { if v.ge(3, 13) { 6 } else if v.ge(2, 0) { 2 } else { 1 } }
+//@fn src/game/mod.rs | impl End | size | ret=res
+		ensures res == End::size_spec(version) /*[game.End.size]*/,
+//@end
+	}
 }
 use game::Port;
 pub mod slippi {
@@ -175,7 +183,7 @@ pub open spec fn state_swf(st: &ParseState) -> bool {
 }
 // stated input bound (assumption 6 in DESIGN §8): the total input is shorter than 2^31 bytes
 pub open spec fn within_input_bound(st: &ParseState) -> bool {
-	st.bytes_read <= 0x7fff_ffff && st.split_accumulator.actual_size <= 0x7fff_ffff && st.game.frames.id@.len() < 0x7fff_ffff
+	st.bytes_read <= 0xffff_ffff_ffff && st.split_accumulator.actual_size <= 0x7fff_ffff
 }
 
 // game_end (Game End payload parser) is verified in the startend unit; here only: it keeps the raw block
@@ -496,7 +504,7 @@ pub open spec fn event_effect(a: &ParseState, b: &ParseState, code0: u8, p: Seq<
 		next_event_ok(&*old(state), (*old(r)).rest()), !(*old(r)).hit_eof(),
 		(*old(r)).rest().len() >= 1 ==> (*old(r)).rest()[0] == 0x37,
 	ensures
-		(*final(r)).inv(),
+		(*final(r)).inv(), (*final(r)).stable() == (*old(r)).stable(),
 		res is Ok ==> consumed_one_event(&*old(state), &*old(r), &*final(r)) /*[C12.exactly_one_event_consumed]*/,
 		res is Ok ==> res->Ok_0 == eff_code(&*old(state), (*old(r)).rest()[0], (*old(r)).rest().subrange(1, 1 + payload_size(&*old(state), (*old(r)).rest()[0]))) /*[C12.returns_dispatched_code]*/,
 		res is Ok ==> (*final(state)).bytes_read == (*old(state)).bytes_read + 1 + payload_size(&*old(state), (*old(r)).rest()[0]) /*[C12.bytes_read_accounting]*/,
@@ -509,7 +517,7 @@ pub open spec fn event_effect(a: &ParseState, b: &ParseState, code0: u8, p: Seq<
 		next_event_ok(&*old(state), (*old(r)).rest()), !(*old(r)).hit_eof(),
 		(*old(r)).rest().len() >= 1 ==> (*old(r)).rest()[0] == 0x38,
 	ensures
-		(*final(r)).inv(),
+		(*final(r)).inv(), (*final(r)).stable() == (*old(r)).stable(),
 		res is Ok ==> consumed_one_event(&*old(state), &*old(r), &*final(r)) /*[C12.exactly_one_event_consumed]*/,
 		res is Ok ==> res->Ok_0 == eff_code(&*old(state), (*old(r)).rest()[0], (*old(r)).rest().subrange(1, 1 + payload_size(&*old(state), (*old(r)).rest()[0]))) /*[C12.returns_dispatched_code]*/,
 		res is Ok ==> (*final(state)).bytes_read == (*old(state)).bytes_read + 1 + payload_size(&*old(state), (*old(r)).rest()[0]) /*[C12.bytes_read_accounting]*/,
@@ -522,7 +530,7 @@ pub open spec fn event_effect(a: &ParseState, b: &ParseState, code0: u8, p: Seq<
 		next_event_ok(&*old(state), (*old(r)).rest()), !(*old(r)).hit_eof(),
 		(*old(r)).rest().len() >= 1 ==> (*old(r)).rest()[0] == 0x3A,
 	ensures
-		(*final(r)).inv(),
+		(*final(r)).inv(), (*final(r)).stable() == (*old(r)).stable(),
 		res is Ok ==> consumed_one_event(&*old(state), &*old(r), &*final(r)) /*[C12.exactly_one_event_consumed]*/,
 		res is Ok ==> res->Ok_0 == eff_code(&*old(state), (*old(r)).rest()[0], (*old(r)).rest().subrange(1, 1 + payload_size(&*old(state), (*old(r)).rest()[0]))) /*[C12.returns_dispatched_code]*/,
 		res is Ok ==> (*final(state)).bytes_read == (*old(state)).bytes_read + 1 + payload_size(&*old(state), (*old(r)).rest()[0]) /*[C12.bytes_read_accounting]*/,
@@ -535,7 +543,7 @@ pub open spec fn event_effect(a: &ParseState, b: &ParseState, code0: u8, p: Seq<
 		next_event_ok(&*old(state), (*old(r)).rest()), !(*old(r)).hit_eof(),
 		(*old(r)).rest().len() >= 1 ==> (*old(r)).rest()[0] == 0x3B,
 	ensures
-		(*final(r)).inv(),
+		(*final(r)).inv(), (*final(r)).stable() == (*old(r)).stable(),
 		res is Ok ==> consumed_one_event(&*old(state), &*old(r), &*final(r)) /*[C12.exactly_one_event_consumed]*/,
 		res is Ok ==> res->Ok_0 == eff_code(&*old(state), (*old(r)).rest()[0], (*old(r)).rest().subrange(1, 1 + payload_size(&*old(state), (*old(r)).rest()[0]))) /*[C12.returns_dispatched_code]*/,
 		res is Ok ==> (*final(state)).bytes_read == (*old(state)).bytes_read + 1 + payload_size(&*old(state), (*old(r)).rest()[0]) /*[C12.bytes_read_accounting]*/,
@@ -548,7 +556,7 @@ pub open spec fn event_effect(a: &ParseState, b: &ParseState, code0: u8, p: Seq<
 		next_event_ok(&*old(state), (*old(r)).rest()), !(*old(r)).hit_eof(),
 		(*old(r)).rest().len() >= 1 ==> (*old(r)).rest()[0] == 0x3C,
 	ensures
-		(*final(r)).inv(),
+		(*final(r)).inv(), (*final(r)).stable() == (*old(r)).stable(),
 		res is Ok ==> consumed_one_event(&*old(state), &*old(r), &*final(r)) /*[C12.exactly_one_event_consumed]*/,
 		res is Ok ==> res->Ok_0 == eff_code(&*old(state), (*old(r)).rest()[0], (*old(r)).rest().subrange(1, 1 + payload_size(&*old(state), (*old(r)).rest()[0]))) /*[C12.returns_dispatched_code]*/,
 		res is Ok ==> (*final(state)).bytes_read == (*old(state)).bytes_read + 1 + payload_size(&*old(state), (*old(r)).rest()[0]) /*[C12.bytes_read_accounting]*/,
@@ -561,7 +569,7 @@ pub open spec fn event_effect(a: &ParseState, b: &ParseState, code0: u8, p: Seq<
 		next_event_ok(&*old(state), (*old(r)).rest()), !(*old(r)).hit_eof(),
 		(*old(r)).rest().len() >= 1 ==> (*old(r)).rest()[0] == 0x10,
 	ensures
-		(*final(r)).inv(),
+		(*final(r)).inv(), (*final(r)).stable() == (*old(r)).stable(),
 		res is Ok ==> consumed_one_event(&*old(state), &*old(r), &*final(r)) /*[C12.exactly_one_event_consumed]*/,
 		res is Ok ==> res->Ok_0 == eff_code(&*old(state), (*old(r)).rest()[0], (*old(r)).rest().subrange(1, 1 + payload_size(&*old(state), (*old(r)).rest()[0]))) /*[C12.returns_dispatched_code]*/,
 		res is Ok ==> (*final(state)).bytes_read == (*old(state)).bytes_read + 1 + payload_size(&*old(state), (*old(r)).rest()[0]) /*[C12.bytes_read_accounting]*/,
@@ -574,7 +582,7 @@ pub open spec fn event_effect(a: &ParseState, b: &ParseState, code0: u8, p: Seq<
 		next_event_ok(&*old(state), (*old(r)).rest()), !(*old(r)).hit_eof(),
 		(*old(r)).rest().len() >= 1 ==> (*old(r)).rest()[0] != 0x37 && (*old(r)).rest()[0] != 0x38 && (*old(r)).rest()[0] != 0x3A && (*old(r)).rest()[0] != 0x3B && (*old(r)).rest()[0] != 0x3C && (*old(r)).rest()[0] != 0x10,
 	ensures
-		(*final(r)).inv(),
+		(*final(r)).inv(), (*final(r)).stable() == (*old(r)).stable(),
 		res is Ok ==> consumed_one_event(&*old(state), &*old(r), &*final(r)) /*[C12.exactly_one_event_consumed]*/,
 		res is Ok ==> res->Ok_0 == eff_code(&*old(state), (*old(r)).rest()[0], (*old(r)).rest().subrange(1, 1 + payload_size(&*old(state), (*old(r)).rest()[0]))) /*[C12.returns_dispatched_code]*/,
 		res is Ok ==> (*final(state)).bytes_read == (*old(state)).bytes_read + 1 + payload_size(&*old(state), (*old(r)).rest()[0]) /*[C12.bytes_read_accounting]*/,
@@ -586,24 +594,25 @@ pub open spec fn event_effect(a: &ParseState, b: &ParseState, code0: u8, p: Seq<
 // ---- C06: the same bodies with NO premise on the bytes: every assert / unwrap / index / arithmetic site must be safe ----
 //@fn src/io/slippi/de.rs | - | handle_splitter_event | ret=res | twin=__total
 	requires (*old(accumulator)).actual_size <= 0x7fff_ffff,
-	ensures res is Ok ==> (*final(accumulator)).actual_size <= (*old(accumulator)).actual_size + 512,
+	ensures res is Ok ==> (*final(accumulator)).actual_size <= (*old(accumulator)).actual_size + 512 && buf@.len() == 516,
+		res is Err ==> (*final(accumulator)).actual_size == (*old(accumulator)).actual_size,
 //@end
 //@fn src/io/slippi/de.rs | - | parse_event | ret=res | twin=__total | drop=if let Some\(ref d\) = opts | drop=\*state\.event_counts\.entry | sigsub=/mut r: R,/r: &mut R,/ | sub=/r.read_exact(&mut buf)?/r.read_exact(buf.as_mut_slice())?/ | sub=/bytes: buf.to_vec(),/bytes: to_vec_u8(&buf),/ | sub=/handle_splitter_event(/handle_splitter_event__total(/ | sub=/state.frame_close();/state.frame_close__total();/
 	requires within_input_bound(&*old(state)), state_swf(&*old(state)), (*old(r)).inv(), !(*old(r)).hit_eof(),
-	ensures (*final(r)).inv(),
+	ensures (*final(r)).inv(), (*final(r)).stable() == (*old(r)).stable(),
 		res is Ok ==> state_swf(&*final(state)) /*[C06.state_stays_well_formed]*/,
 		res is Ok ==> consumed_one_event(&*old(state), &*old(r), &*final(r)) /*[C12.exactly_one_event_consumed]*/,
 		res is Ok ==> (*final(state)).bytes_read == (*old(state)).bytes_read + 1 + payload_size(&*old(state), (*old(r)).rest()[0]) /*[C12.bytes_read_accounting]*/,
-		res is Ok ==> (*final(state)).payload_sizes == (*old(state)).payload_sizes && (*final(state)).game.start == (*old(state)).game.start,
+		res is Ok ==> non_frame_same(&*old(state), &*final(state)) /*[C12.event_touches_no_header_data]*/,
 		res is Ok ==> (*final(state)).game.frames.id@.len() <= (*old(state)).game.frames.id@.len() + 1 /*[C12.at_most_one_row_per_event]*/,
 		res is Ok ==> (*final(state)).game.frames.id@.len() >= (*old(state)).game.frames.id@.len() /*[C12.frame_count_never_decreases]*/,
-		res is Ok ==> (*final(state)).split_accumulator.actual_size <= (*old(state)).split_accumulator.actual_size + 512,
+		res is Ok ==> (*final(state)).split_accumulator.actual_size <= (*old(state)).split_accumulator.actual_size + 1 + payload_size(&*old(state), (*old(r)).rest()[0]) /*[C06.accumulator_bounded_by_input]*/,
 		(*final(r)).hit_eof() ==> res is Err /*[C07.eof_is_an_error]*/,
 //@end
 '''
 
 
-def template(repo):
+def template(repo, for_reader=False):
     L = gen_codec.build_layouts(repo, REL_MUT, 'MutablePrimitiveArray', 'MutableBitmap')
     out = [HEADER]
     out.append(PART_0)
@@ -620,5 +629,42 @@ def template(repo):
     out.append(PART_A)
     out.append('} // mod mutable\npub use mutable::*;')
     out.append(PART_B)
-    out.append('} // verus!\nfn main() {}')
-    return '\n'.join(out)
+    text = '\n'.join(out)
+    if for_reader:
+        text = as_stubs(text)
+        return text
+    return text + '\n} // verus!\nfn main() {}'
+
+
+def as_stubs(text):
+    """The event unit's functions as contract-only stubs for units that call them (reader): the functional
+    per-class parse_event twins are dropped, the `__total` contracts become the contracts of the plain names
+    (that is what a caller may rely on for arbitrary bytes), every other function keeps its contract."""
+    import re
+    blocks = re.split(r'(?m)^(?=//@fn )', text)
+    res = []
+    for b in blocks:
+        if not b.startswith('//@fn '):
+            res.append(b)
+            continue
+        head, rest = b.split('\n', 1)
+        end = rest.index('//@end') + len('//@end')
+        body, tail = rest[:end], rest[end:]
+        name = [x.strip() for x in head[len('//@fn '):].split(' | ')][2]
+        tw = re.search(r'twin=(\w+)', head)
+        if name == 'parse_event' and tw and tw.group(1) != '__total':
+            res.append(tail)
+            continue
+        if name == 'frame_close' and not tw:
+            res.append(tail)
+            continue
+        if name in ('handle_splitter_event', 'port_index'):
+            res.append(tail)
+            continue
+        if tw and tw.group(1) == '__total':
+            head = head.replace(' | twin=__total', '')
+        if ' | stub' not in head:
+            head += ' | stub'
+        # keep only the contract part of the body (sections are ignored for stubs anyway)
+        res.append(head + '\n' + body + tail)
+    return ''.join(res)
